@@ -4,7 +4,7 @@ use super::{Error, Result};
 use nom::multi::{many0, many1};
 use nom::{
     bytes::complete::tag,
-    character::complete::multispace0,
+    character::complete::{multispace0, multispace1},
     combinator::{map, map_res, opt},
     sequence::{delimited, tuple},
 };
@@ -40,7 +40,7 @@ pub fn decl(input: &str) -> nom::IResult<&str, (bool, Type, Type)> {
                 map(
                     tuple((
                         map(
-                            opt(delimited(multispace0, tag("volatile"), multispace0)),
+                            opt(delimited(multispace0, tag("volatile"), multispace1)),
                             |v: Option<_>| v.is_some(),
                         ),
                         map(name, Type::Name),
